@@ -128,13 +128,19 @@ def replay_setting(data):
         from chmpy.crystal import Crystal
         d = tempfile.mkdtemp()
         try:
+            # each path held another crystal before (written and read): what is read afterwards is what the file holds now
+            other = _crystal(2, "", frac=[[0.11, 0.23, 0.37], [0.61, 0.52, 0.43], [0.3, 0.8, 0.9]])
             for ext in (".cif", ".res"):
                 f = os.path.join(d, "x" + ext)
+                other.save(f)
+                Crystal.load(f)
                 c.save(f)
                 c2 = Crystal.load(f)
                 bad += _same(c, c2, 0.6e-12, "save/load " + ext)
                 os.remove(f)
             f = os.path.join(d, "POSCAR")
+            other.save(f)
+            Crystal.load(f)
             c.save(f)
             p = Crystal.load(f)
             if len(p.asymmetric_unit) != len(c.unit_cell_atoms()["element"]):
